@@ -28,22 +28,14 @@ Definition expected_additions (sp : spend) : list (coin * option bytes) :=
   map (fun nc => ({| co_parent := sp_coin_id sp; co_ph := nc_ph nc; co_amount := nc_amount nc |}, owned_hint nc))
       (sp_create_coin sp).
 
-(* the witness class of finding F-C09-1: an addition reported with the empty hint Some "" *)
-Definition known_class_empty_hint (adds : list (coin * option bytes)) : Prop := exists c, In (c, Some []) adds.
+(* a reported hint is never the empty string (since fix 0a21e864) *)
+Definition hint_nonempty (e : coin * option bytes) : Prop := snd e <> Some [].
 
 (* the spend tuples of a generator output, up to the first element that is not a 4-tuple *)
 Fixpoint spend_tuples (iter : sexp) : list (sexp * sexp * sexp * sexp) :=
   match iter with
   | Pair (Pair p (Pair pz (Pair am (Pair sol _)))) tl => (p, pz, am, sol) :: spend_tuples tl
   | _ => []
-  end.
-
-(* no spend tuple carries spend-level extras (the witness class of finding F-C09-2 is its negation) *)
-Fixpoint no_extras (iter : sexp) : Prop :=
-  match iter with
-  | Pair (Pair _ (Pair _ (Pair _ (Pair _ ext)))) tl => ext = Atom [] /\ no_extras tl
-  | Pair _ _ => False
-  | Atom _ => True
   end.
 
 Definition matches (H : bytes -> bytes) (f : coin) (t : sexp * sexp * sexp * sexp) : Prop :=
@@ -71,9 +63,9 @@ Definition cc_generator (memo_tail : sexp) (spend_tail : sexp) : bytes :=
   let puzzle := Pair (Atom [x01]) (Pair cond nil) in
   let spend := Pair (Atom (repeat x11 32)) (Pair puzzle (Pair (Atom [x0a]) (Pair nil spend_tail))) in
   ser' (Pair (Atom [x01]) (Pair (Pair spend nil) nil)).
-(* the memo list is ("") : its first element is the empty atom *)
+(* the memo list is ("") : its first element is the empty atom (former witness of F-C09-1) *)
 Definition EMPTY_MEMO_GENERATOR : bytes := cc_generator (Pair (Pair nil nil) nil) nil.
-(* no memo; a spend-level extra after the solution *)
+(* no memo; a spend-level extra after the solution (former witness of F-C09-2) *)
 Definition EXTRAS_GENERATOR : bytes := cc_generator nil (Pair (Atom [x65]) nil).
 (* a 32-byte first memo *)
 Definition HINT32_GENERATOR : bytes := cc_generator (Pair (Pair (Atom (repeat x33 32)) nil) nil) nil.
